@@ -616,7 +616,8 @@ func planFragmentMatches(schema Schema, typeConditionAST *ast.Named, runtime *Ob
 		return true
 	}
 	conditionalType, err := typeFromAST(schema, typeConditionAST)
-	if err != nil {
+	if err != nil || conditionalType == nil {
+		// unknown type condition (possible on unvalidated documents): no match
 		return false
 	}
 	if conditionalType == runtime {
